@@ -1812,3 +1812,16 @@ Proof.
   exists r', s'. split; [exact Hr|]. split; [exact Hs|]. split; [exact HR|]. split; [exact Hi|].
   split; [apply (R_wf r' s'); assumption|apply R_abs; assumption].
 Qed.
+
+(** * def_realloc_caches (cache.size / page size changed): a fresh cache *)
+Theorem realloc_refines r s c : R r s -> Inv s -> 0 < c ->
+  snd (r_do_realloc r c) = snd (do_realloc s c) /\
+  R (fst (r_do_realloc r c)) (fst (do_realloc s c)) /\ Inv (fst (do_realloc s c)) /\
+  (forall v n, pend s = [] -> plain s = [] -> In (v, n) (snd (do_realloc s c)) -> n = 0).
+Proof.
+  intros [HRl Haux] H Hc. aux_inv Haux. unfold r_do_realloc, do_realloc, r_cleanup_list. cbn [fst snd].
+  rewrite (proj1 (ptr_prec _ _ _ _ _ _ _ HRl)), (proj1 (ptr_probe _ _ _ _ _ _ _ HRl)), Aref.
+  split; [reflexivity|]. split; [apply R_init; exact Hc|]. split; [apply init_Inv; exact Hc|].
+  intros v n Hp Hq Hin. apply in_map_iff in Hin. destruct Hin as [x [Heq _]].
+  inversion Heq; subst. rewrite (I_ref _ H), Hp, Hq. reflexivity.
+Qed.
